@@ -155,6 +155,7 @@ func (s *AccountDB) Prepare(thash, bhash common.Hash, ti int) {
 	s.bhash = bhash
 	s.txIndex = ti
 	s.accessList = newAccessList()
+	s.transientStorage = newTransientStorage()
 }
 
 // AddRefund adds gas to the refund counter
